@@ -3,6 +3,7 @@ C05 — muxed continuity counters advance by one per payload packet on every PID
 -/
 import Astits.Model.Mux
 import Astits.Spec.Mux
+import Astits.Proofs.MuxCounters
 namespace Astits.C05
 
 /-- the 4-bit wrapping counter of the code: after `inc`, the value is the successor modulo 16
@@ -71,5 +72,244 @@ theorem model_rejected_tables_keep_state (m : Mux) (e : Err) (h : m.writeTables.
   · rfl
 
 example : CounterInv (newWrappingCounter 15).inc.inc := counterInv_inc _ (counterInv_inc _ counterInv_fresh)
+
+/-! ## C05 on the muxer MODEL, at three levels (proofs: `Astits/Proofs/MuxCounters.lean`)
+
+Observers on the 188-byte chunks handed to the writer: `pktPID`, `pktHasPayload`, `pktCC` (bytes 1..3).
+`next v` = successor of a stored counter value (`next 16 = 0`: a fresh counter yields 0 first),
+`succs v n` = the `n` values handed out after `v`, `adv v n` = the stored value after `n` increments,
+`payloadCCs cs` = counters of the payload-carrying chunks of `cs`, `ccsOn p cs` = the same restricted to PID `p`,
+`stored m p` = the counter value the muxer holds for PID `p` (patCC / pmtCC / esCC entry / removedCC entry / 16). -/
+
+open MuxCounters (pktPID pktHasPayload pktCC next adv succs payloadCCs ccsOn stored CCInv LoopWF DataWF DataOK NoBurn
+  MuxInv StepAdv Adv Op step run RunAll StepOK StepNoPanic OpOK TablesEmitted dataForce dataHdr)
+
+theorem counterInv_iff (c : WrappingCounter) : CounterInv c ↔ CCInv c := Iff.rfl
+
+/-- **Level 1.** Bytes 1..3 of a chunk produced by `writePacket` carry the header's PID, payload flag and
+continuity counter. -/
+theorem chunk_header_observed (p : Packet) (bs : Bytes) (h : writePacket p 188 = .ok bs)
+    (hpid : p.header.pid < 8192) (htsc : p.header.transportScramblingControl < 4)
+    (hcc : p.header.continuityCounter < 16) :
+    pktPID bs = p.header.pid ∧ pktHasPayload bs = p.header.hasPayload ∧ pktCC bs = p.header.continuityCounter :=
+  MuxCounters.writePacket_observe p 188 bs h hpid htsc hcc
+
+def exPkt : Packet :=
+  { header := { continuityCounter := 5, hasAdaptationField := false, hasPayload := true, payloadUnitStartIndicator := true,
+                pid := 0x100, transportErrorIndicator := false, transportPriority := false, transportScramblingControl := 0 },
+    payload := [1, 2, 3] }
+
+example : ∃ bs, writePacket exPkt 188 = .ok bs ∧ exPkt.header.pid < 8192 ∧ exPkt.header.transportScramblingControl < 4 ∧
+    exPkt.header.continuityCounter < 16 ∧ pktPID bs = 0x100 ∧ pktHasPayload bs = true ∧ pktCC bs = 5 :=
+  ⟨_, rfl, by decide +kernel⟩
+
+/-- **Level 2 (packetisation loop).** With the counter invariant and a 13-bit PID, the chunks `new` a run of
+`writeDataLoop` appends to its accumulator are all on `pid`; the payload-carrying ones carry, in order, the
+successive counter values after `cc` (adaptation-field-only chunks are skipped by `payloadCCs`: they do not
+advance the counter); the returned counter is `cc` advanced exactly once per payload-carrying chunk — or exactly
+once more ("burnt" value), which is only possible when the result is `.panic` (never `.ok`, never `.err`) and the
+inputs are not `LoopWF`; an `.ok` result returns exactly `acc ++ new`. -/
+theorem loop_counters (pid : Nat) (hdr : PESHeader) (hpid : pid < 8192) (fuel : Nat) (data : Bytes)
+    (ps waf : Bool) (af : Option PacketAdaptationField) (cc : WrappingCounter) (acc : List Bytes) (hcc : CCInv cc) :
+    ∃ new : List Bytes,
+      (writeDataLoop pid hdr fuel data ps waf af cc acc).2.2.2 = acc ++ new ∧
+      (∀ c ∈ new, pktPID c = pid) ∧
+      payloadCCs new = succs cc.value (payloadCCs new).length ∧
+      CCInv (writeDataLoop pid hdr fuel data ps waf af cc acc).2.1 ∧
+      ((writeDataLoop pid hdr fuel data ps waf af cc acc).2.1.value = adv cc.value (payloadCCs new).length ∨
+        (¬ LoopWF hdr ps waf af ∧ (writeDataLoop pid hdr fuel data ps waf af cc acc).1 = .panic ∧
+          (writeDataLoop pid hdr fuel data ps waf af cc acc).2.1.value = adv cc.value ((payloadCCs new).length + 1))) ∧
+      (∀ l, (writeDataLoop pid hdr fuel data ps waf af cc acc).1 = .ok l → l = acc ++ new) :=
+  MuxCounters.writeDataLoop_counters pid hdr hpid fuel data ps waf af cc acc hcc
+
+/-- on well-formed inputs (`LoopWF`: no nil pointer behind a set flag, PES header as long as announced, adaptation
+field only in the first packets) nothing is burnt -/
+theorem loop_counters_wf (pid : Nat) (hdr : PESHeader) (hpid : pid < 8192) (fuel : Nat) (data : Bytes)
+    (ps waf : Bool) (af : Option PacketAdaptationField) (cc : WrappingCounter) (acc : List Bytes) (hcc : CCInv cc)
+    (hwf : LoopWF hdr ps waf af) :
+    ∃ new : List Bytes,
+      (writeDataLoop pid hdr fuel data ps waf af cc acc).2.2.2 = acc ++ new ∧
+      (∀ c ∈ new, pktPID c = pid) ∧
+      payloadCCs new = succs cc.value (payloadCCs new).length ∧
+      (writeDataLoop pid hdr fuel data ps waf af cc acc).2.1.value = adv cc.value (payloadCCs new).length :=
+  MuxCounters.writeDataLoop_wf_exact pid hdr hpid fuel data ps waf af cc acc hcc hwf
+
+/-- the burnt case is real: an optional PES header flagged with a PTS it does not hold makes `writePESData` panic
+after `cc.inc` -/
+def burntHdr : PESHeader := { streamID := 0xe0, optionalHeader := some { ptsDTSIndicator := 2 } }
+example : (writeDataLoop 0x100 burntHdr 3 [1] true false none (newWrappingCounter 15) []).1.isPanic = true ∧
+    (writeDataLoop 0x100 burntHdr 3 [1] true false none (newWrappingCounter 15) []).2.1.value = 0 ∧
+    (writeDataLoop 0x100 burntHdr 3 [1] true false none (newWrappingCounter 15) []).2.2.2 = [] := by decide +kernel
+
+/-- non-vacuity of `loop_counters` / `loop_counters_wf`: a fresh counter, 300 bytes → two payload chunks 0, 1 -/
+example : CCInv (newWrappingCounter 15) ∧ (0x100 : Nat) < 8192 ∧
+    payloadCCs (writeDataLoop 0x100 { streamID := 0xe0 } 302 (List.replicate 300 7) true false none
+      (newWrappingCounter 15) []).2.2.2 = [0, 1] :=
+  ⟨MuxCounters.ccInv_fresh, by decide, by decide +kernel⟩
+
+/-- **Level 2 (`WriteData`).** When the tables step of the call succeeded with chunks `tcs` and state `m1`:
+chunks = table chunks ++ loop chunks; the new state is `m1` with only the counter of `d.pid` replaced (`setCC`);
+the loop chunks / new counter relate to the old counter `cc` of `d.pid` as in `loop_counters`. -/
+theorem writeData_counters (m : Mux) (d : MuxerData) (cc : WrappingCounter) (hcc : m.ccOf d.pid = some cc)
+    (hfit : ¬ 6 + calcPESOptionalHeaderLength d.pes.header.optionalHeader > 184)
+    (hinv : CCInv cc) (hpid : d.pid < 8192)
+    (tcs : List Bytes) (m1 : Mux) (hr : m.retransmitTables (dataForce m d) = (.ok tcs, m1)) :
+    ∃ (new : List Bytes) (cc' : WrappingCounter),
+      (m.writeData d).1.chunks = tcs ++ new ∧
+      (m.writeData d).2.1 = m1.setCC d.pid cc' ∧
+      (∀ c ∈ new, pktPID c = d.pid) ∧
+      payloadCCs new = succs cc.value (payloadCCs new).length ∧
+      CCInv cc' ∧
+      (cc'.value = adv cc.value (payloadCCs new).length ∨
+        (¬ LoopWF (dataHdr m1 d) true d.adaptationField.isSome d.adaptationField ∧ (m.writeData d).1.panic = true ∧
+          cc'.value = adv cc.value ((payloadCCs new).length + 1))) :=
+  MuxCounters.writeData_counters m d cc hcc hfit hinv hpid tcs m1 hr
+
+/-- `setCC` changes the counter of `pid` only: patCC / pmtCC / removedCC / streams are untouched and every other
+PID's entry of `esCC` is kept -/
+theorem setCC_only_pid (m : Mux) (pid : Nat) (c : WrappingCounter) :
+    (m.setCC pid c).patCC = m.patCC ∧ (m.setCC pid c).pmtCC = m.pmtCC ∧ (m.setCC pid c).removedCC = m.removedCC ∧
+    (∀ p, p ≠ pid → (m.setCC pid c).ccOf p = m.ccOf p) := by
+  refine ⟨rfl, rfl, rfl, fun p hp => ?_⟩
+  rw [MuxCounters.ccOf_eq, MuxCounters.ccOf_eq, MuxCounters.setCC_esCC, MuxCounters.lookup_setCC, if_neg hp]
+
+/-- a rejected `WriteData` (unknown PID, PES header that can never fit) emits nothing and changes nothing; when the
+tables step fails nothing is emitted either -/
+theorem writeData_rejected (m : Mux) (d : MuxerData)
+    (h : m.ccOf d.pid = none ∨ 6 + calcPESOptionalHeaderLength d.pes.header.optionalHeader > 184) :
+    (m.writeData d).1.chunks = [] ∧ (m.writeData d).2.1 = m :=
+  MuxCounters.writeData_rejected m d h
+
+/-- **Level 3 (tables).** `WriteTables` either succeeds, emitting exactly one packet on PID 0 and one on PID 0x1000,
+payload-carrying, with the successors of `patCC` / `pmtCC`, which become the stored counters (stream counters
+untouched); or it fails (error / panic) and returns the state it was called with, nothing being emitted. -/
+theorem tables_counters (m : Mux) (hp : CCInv m.patCC) (hq : CCInv m.pmtCC) :
+    (∃ pat pmt, m.writeTables.1 = .ok [pat, pmt] ∧
+        pktPID pat = 0 ∧ pktHasPayload pat = true ∧ pktCC pat = next m.patCC.value ∧
+        pktPID pmt = 4096 ∧ pktHasPayload pmt = true ∧ pktCC pmt = next m.pmtCC.value ∧
+        m.writeTables.2.patCC = m.patCC.inc ∧ m.writeTables.2.pmtCC = m.pmtCC.inc ∧
+        m.writeTables.2.esCC = m.esCC ∧ m.writeTables.2.removedCC = m.removedCC) ∨
+    (m.writeTables.1.isOk = false ∧ m.writeTables.2 = m) := by
+  rcases MuxCounters.writeTables_spec m hp hq with ⟨cs, h1, pat, pmt, rfl, a1, a2, a3, b1, b2, b3, c1, c2, c3⟩ | h
+  · exact Or.inl ⟨pat, pmt, h1, a1, a2, a3, b1, b2, b3, c1, c2, c3.esCC, c3.removedCC⟩
+  · exact Or.inr h
+
+/-- **Level 3 (per-step preservation).** Every admissible call (`OpOK`: explicitly added PIDs are `< 8192`, not 0,
+not 0x1000), succeeding or failing, keeps the state invariant; unless it is a `WriteData` that burns a value, on
+every PID the payload-carrying chunks it emits carry the successive values after the stored counter, which ends
+at the last one sent. -/
+theorem step_preserves (m : Mux) (op : Op) (h : MuxInv m) (hok : StepOK m op) :
+    MuxInv (step m op).2 ∧ ∀ p, Adv (stored m p) (ccsOn p (step m op).1) (stored (step m op).2 p) :=
+  MuxCounters.step_adv m op h hok
+
+/-- a `WriteData` that burns a value panics, its input is not `DataWF`, and exactly one value is skipped -/
+theorem burnt_only_on_panic (m : Mux) (d : MuxerData) (h : MuxInv m) (hb : ¬ NoBurn m d) :
+    (m.writeData d).1.panic = true ∧ ¬ DataWF d ∧
+    stored (m.writeData d).2.1 d.pid = adv (stored m d.pid) ((ccsOn d.pid (m.writeData d).1.chunks).length + 1) :=
+  (MuxCounters.writeData_step m d h).2.2 hb
+
+/-- **Level 3 (history theorem).** From a new muxer, over any interleaving of stream additions (explicit PIDs
+`< 8192`, not 0 / 0x1000), removals, `SetPCRPID`, explicit `WriteTables`, `WriteData` on any PIDs (with their
+automatic table retransmissions) and failed calls, in which no `WriteData` burns a counter value: on EVERY PID the
+payload-carrying chunks, in emission order, carry the counters 0, 1, 2, … modulo 16, and the muxer's stored counter
+is the last one sent (`adv 16 n`; 16 iff nothing was sent: `MuxCounters.stored_is_last`). -/
+theorem history_counters (period : Nat) (ops : List Op) (hok : RunAll StepOK (newMux period) ops) (p : Nat) :
+    ccsOn p (run (newMux period) ops).1
+        = (List.range (ccsOn p (run (newMux period) ops).1).length).map (· % 16) ∧
+    stored (run (newMux period) ops).2 p = adv 16 (ccsOn p (run (newMux period) ops).1).length :=
+  MuxCounters.history_counters period ops hok p
+
+/-- the same when no `WriteData` of the history panics (an observable condition) -/
+theorem history_counters_noPanic (period : Nat) (ops : List Op) (hok : RunAll StepNoPanic (newMux period) ops) (p : Nat) :
+    ccsOn p (run (newMux period) ops).1
+        = (List.range (ccsOn p (run (newMux period) ops).1).length).map (· % 16) ∧
+    stored (run (newMux period) ops).2 p = adv 16 (ccsOn p (run (newMux period) ops).1).length :=
+  MuxCounters.history_counters_noPanic period ops hok p
+
+/-- the same under a static condition on the inputs: every `WriteData` input is `DataOK` (no nil pointer behind a
+set flag; optional PES header not overflowing its 8-bit length) -/
+theorem history_counters_dataOK (period : Nat) (ops : List Op)
+    (hok : ∀ op ∈ ops, OpOK op ∧ ∀ d, op = .data d → DataOK d) (p : Nat) :
+    ccsOn p (run (newMux period) ops).1
+        = (List.range (ccsOn p (run (newMux period) ops).1).length).map (· % 16) ∧
+    stored (run (newMux period) ops).2 p = adv 16 (ccsOn p (run (newMux period) ops).1).length :=
+  MuxCounters.history_counters_wf period ops (fun op h => ⟨(hok op h).1, fun d hd => ((hok op h).2 d hd).wf⟩) p
+
+/-- from any state satisfying the invariant the counters continue from the stored values -/
+theorem history_counters_from (m : Mux) (ops : List Op) (h : MuxInv m) (hok : RunAll StepOK m ops) (p : Nat) :
+    Adv (stored m p) (ccsOn p (run m ops).1) (stored (run m ops).2 p) :=
+  MuxCounters.history_counters_from m ops h hok p
+
+/-! ### non-vacuity: a concrete history with removal, failed call, re-addition and retransmissions -/
+
+def exES : PMTElementaryStream := { elementaryPID := 0x100, streamType := 0x1b }
+def exData (n : Nat) : MuxerData :=
+  { pid := 0x100, pes := { data := List.replicate n 7, header := { streamID := 0xe0 } } }
+def exOps : List Op :=
+  [.add exES, .setPCR 0x100, .tables, .data (exData 300), .remove 0x100, .data (exData 10), .add exES,
+   .data (exData 10), .tables]
+
+theorem exData_ok (n : Nat) : DataOK (exData n) :=
+  ⟨rfl, (by intro oh h; cases h), (by intro a h; cases h)⟩
+
+theorem exOps_ok : ∀ op ∈ exOps, OpOK op ∧ ∀ d, op = .data d → DataOK d := by
+  intro op hop
+  simp only [exOps, List.mem_cons, List.mem_nil_iff, or_false] at hop
+  rcases hop with rfl | rfl | rfl | rfl | rfl | rfl | rfl | rfl | rfl
+  · exact ⟨⟨by decide, by decide, by decide⟩, by intro d h; cases h⟩
+  · exact ⟨trivial, by intro d h; cases h⟩
+  · exact ⟨trivial, by intro d h; cases h⟩
+  · exact ⟨trivial, by intro d h; cases h; exact exData_ok _⟩
+  · exact ⟨trivial, by intro d h; cases h⟩
+  · exact ⟨trivial, by intro d h; cases h; exact exData_ok _⟩
+  · exact ⟨⟨by decide, by decide, by decide⟩, by intro d h; cases h⟩
+  · exact ⟨trivial, by intro d h; cases h; exact exData_ok _⟩
+  · exact ⟨trivial, by intro d h; cases h⟩
+
+/-- the hypotheses of `history_counters_dataOK` hold for `exOps`, and the history really emits packets: three
+payload chunks on the stream's PID (the counter survives removal and re-addition; the `WriteData` on the removed
+PID fails and emits nothing) and three on each table PID -/
+example : (∀ op ∈ exOps, OpOK op ∧ ∀ d, op = .data d → DataOK d) ∧
+    ccsOn 0x100 (run (newMux 40) exOps).1 = [0, 1, 2] ∧ ccsOn 0 (run (newMux 40) exOps).1 = [0, 1, 2] ∧
+    ccsOn 4096 (run (newMux 40) exOps).1 = [0, 1, 2] ∧ (run (newMux 40) exOps).1.length = 9 :=
+  ⟨exOps_ok, by decide +kernel, by decide +kernel, by decide +kernel, by decide +kernel⟩
+
+example : RunAll StepOK (newMux 40) exOps :=
+  MuxCounters.runAll_mono MuxCounters.StepWF StepOK (fun _ _ h => h.1)
+    (fun m _ hm h => ⟨h.1, fun d hd => MuxCounters.noBurn_of_wf m d hm (h.2 d hd)⟩) _ exOps (MuxCounters.muxInv_new 40)
+    (MuxCounters.runAll_wf _ exOps (fun op h => ⟨(exOps_ok op h).1, fun d hd => ((exOps_ok op h).2 d hd).wf⟩))
+
+/-! second example: adaptation field (PCR, random access, 164 private bytes) too large for the PES header (with PTS)
+to follow in the same packet → an adaptation-field-only packet precedes the payload packets and does not advance
+the counter; two interleaved streams; forced and periodic table retransmissions -/
+
+def exAF : PacketAdaptationField :=
+  { hasPCR := true, pcr := some { base := 1234, extension := 5 }, randomAccessIndicator := true,
+    hasTransportPrivateData := true, transportPrivateData := List.replicate 164 9, transportPrivateDataLength := 164 }
+def exOH : PESOptionalHeader := { ptsDTSIndicator := 2, pts := some { base := 90000, extension := 0 } }
+def exData2 : MuxerData :=
+  { pid := 0x101, adaptationField := some exAF,
+    pes := { data := List.replicate 200 3, header := { streamID := 0, optionalHeader := some exOH } } }
+def exOps2 : List Op :=
+  [.add { elementaryPID := 0x101, streamType := 0x0f }, .add exES, .setPCR 0x101, .data exData2, .data (exData 10),
+   .data exData2]
+
+theorem exData2_ok : DataOK exData2 :=
+  ⟨by decide, (by intro oh h; cases h; decide), (by intro a h; cases h; decide)⟩
+
+example : (∀ op ∈ exOps2, OpOK op ∧ ∀ d, op = .data d → DataOK d) ∧
+    (run (newMux 40) exOps2).1.map (fun c => (pktPID c, pktHasPayload c, pktCC c)) =
+      [(0, true, 0), (4096, true, 0), (257, false, 0), (257, true, 0), (257, true, 1), (256, true, 0),
+       (0, true, 1), (4096, true, 1), (257, false, 1), (257, true, 2), (257, true, 3)] := by
+  refine ⟨?_, by decide +kernel⟩
+  intro op hop
+  simp only [exOps2, List.mem_cons, List.mem_nil_iff, or_false] at hop
+  rcases hop with rfl | rfl | rfl | rfl | rfl | rfl
+  · exact ⟨⟨by decide, by decide, by decide⟩, by intro d h; cases h⟩
+  · exact ⟨⟨by decide, by decide, by decide⟩, by intro d h; cases h⟩
+  · exact ⟨trivial, by intro d h; cases h⟩
+  · exact ⟨trivial, by intro d h; cases h; exact exData2_ok⟩
+  · exact ⟨trivial, by intro d h; cases h; exact exData_ok _⟩
+  · exact ⟨trivial, by intro d h; cases h; exact exData2_ok⟩
 
 end Astits.C05
